@@ -526,6 +526,20 @@ func scopedAt(si scopeInfo, at ssa.Instruction) bool {
 
 func scopeRules(c *Ctx, r *Report, resolveRef, resolve, newFieldSet *ssa.Function) {
 	makeOptions := c.Func("", "makeOptions")
+	// functions whose failure can be absorbed: a caller tests the error of a call and still reaches a
+	// successful return (${x:default} and friends). Below such a caller a scope must be restored on
+	// error exits too, because evaluation goes on with the same options.
+	var absorbed []*ssa.Function
+	for _, fn := range c.SrcFuncs() {
+		if fn.Pkg != c.SSA[""] {
+			continue
+		}
+		for _, call := range absorbsErrors(fn) {
+			r.Analysed["call sites whose failure is absorbed"]++
+			absorbed = append(absorbed, c.Callees(call)...)
+		}
+	}
+	absorbable := c.Reach(absorbed, nil, nil)
 	// (i) pairing
 	for _, fn := range c.SrcFuncs() {
 		if fn == makeOptions || fn.Pkg != c.SSA[""] && fn.Parent() == nil {
@@ -541,7 +555,7 @@ func scopeRules(c *Ctx, r *Report, resolveRef, resolve, newFieldSet *ssa.Functio
 			continue
 		}
 		// explicit: no successful return reachable from an open without passing a restore
-		bad := false
+		bad, badErr := false, false
 		for _, o := range si.opens {
 			avoid := map[*ssa.BasicBlock]bool{}
 			restoredInBlock := false
@@ -557,15 +571,26 @@ func scopeRules(c *Ctx, r *Report, resolveRef, resolve, newFieldSet *ssa.Functio
 				continue
 			}
 			for _, ret := range Returns(fn) {
-				if !successfulReturn(ret) {
+				if !successfulReturn(ret) && !absorbable[fn] {
 					continue
 				}
 				if ret.Block() == o.Block() || reachableAvoiding(o.Block(), ret.Block(), avoid) && !avoid[ret.Block()] {
 					bad = true
+					if !successfulReturn(ret) {
+						badErr = true
+					}
 				}
 			}
 		}
-		r.Check(!bad, "R08d", name, "open restored", c.Pos(si.opens[0].Pos()), "every successful exit passes a restore", "a guard scope opened here is still current on a successful return: entries leak into (or hide from) later evaluations")
+		okFact := "every successful exit passes a restore"
+		if absorbable[fn] {
+			okFact = "every exit passes a restore (a failure below ${x:default} is absorbed and evaluation continues)"
+		}
+		badFact := "a guard scope opened here is still current on a successful return: entries leak into (or hide from) later evaluations"
+		if badErr {
+			badFact = "a guard scope opened here is still current when the function fails, and a caller (${x:default}, ${x:+alt}, ${x:?err}) absorbs that failure and keeps evaluating: the names registered in the leaked scope produce false cyclic-reference errors"
+		}
+		r.Check(!bad, "R08d", name, "open restored", c.Pos(si.opens[0].Pos()), okFact, badFact)
 	}
 	// (ii) direct callers of resolve/resolveRef among the evaluators
 	for _, fn := range c.SrcFuncs() {
@@ -658,6 +683,78 @@ func scopeRules(c *Ctx, r *Report, resolveRef, resolve, newFieldSet *ssa.Functio
 			r.Check(ok, "R08d", name, "per-child scope in "+lp.kind+" loop", c.Pos(lp.pos), fmt.Sprintf("fresh child set opened in every iteration before the %d evaluating call(s)", len(hot)), "a loop over the children of a node evaluates them in one shared guard set: two children referring to the same setting are reported as a cycle (no fresh child set per field/element)")
 		}
 	}
+}
+
+// absorbsErrors: the function tests the error result of a call and, on the failing edge, can still
+// reach a return that is not a failure carrying that error.
+func absorbsErrors(fn *ssa.Function) []ssa.CallInstruction {
+	var found []ssa.CallInstruction
+	for _, b := range fn.Blocks {
+		ifi, ok := lastInstr(b).(*ssa.If)
+		if !ok {
+			continue
+		}
+		// conditions: err != nil, err == nil, possibly inside || / && chains (each is its own If in SSA)
+		bo, ok := ifi.Cond.(*ssa.BinOp)
+		if !ok || (bo.Op != token.NEQ && bo.Op != token.EQL) {
+			continue
+		}
+		var ev ssa.Value
+		if IsNilConst(bo.Y) {
+			ev = bo.X
+		} else if IsNilConst(bo.X) {
+			ev = bo.Y
+		}
+		if ev == nil || !(ev.Type().String() == "error" || isNamed(ev.Type(), modPath, "Error")) {
+			continue
+		}
+		ex, ok := ev.(*ssa.Extract)
+		if !ok {
+			continue
+		}
+		srcCall, ok := ex.Tuple.(*ssa.Call)
+		if !ok {
+			continue
+		}
+		failEdge := b.Succs[0]
+		if bo.Op == token.EQL {
+			failEdge = b.Succs[1]
+		}
+		for _, ret := range Returns(fn) {
+			if !reachableAvoiding(failEdge, ret.Block(), nil) && failEdge != ret.Block() {
+				continue
+			}
+			n := len(ret.Results)
+			if n == 0 {
+				continue
+			}
+			rv := RetVal(ret, n-1)
+			carries := false
+			for _, s := range Sources(rv) {
+				if s == ssa.Value(ex) {
+					carries = true
+				}
+				if call, ok := s.(*ssa.Call); ok {
+					// wrapped: raiseX(..., err, ...)
+					for _, a := range call.Call.Args {
+						for _, s2 := range Sources(a) {
+							if s2 == ssa.Value(ex) {
+								carries = true
+							}
+						}
+					}
+				}
+			}
+			if !carries && successfulReturn(ret) {
+				// reachable only through the failing edge? the return must be dominated by it or be
+				// its block: otherwise the success path reaches it independently
+				if failEdge == ret.Block() || failEdge.Dominates(ret.Block()) {
+					found = append(found, srcCall)
+				}
+			}
+		}
+	}
+	return found
 }
 
 func successfulReturn(ret *ssa.Return) bool {
